@@ -342,6 +342,24 @@ def finish(res, harness, t0, level="model_checking"):
                 reproduced = True if r.returncode == 1 else (False if r.returncode == 0 else None)
                 if reproduced:
                     mm["detail"] = "[reproduced only with the preceding calls of its process: state carried between calls] " + mm["detail"]
+            if reproduced is False and mm.get("respec"):
+                # the same wrong answer did not come back (e.g. it depends on hash iteration order): execute the session again,
+                # several times, and let the TRACE SPECIFICATION judge the fresh observations
+                rs = mm["respec"]
+                scratch = os.path.dirname(harness)
+                sd = prepare_spec_dir(scratch)
+                for attempt in range(5):
+                    rr = run([harness, rs["cmd"], path, os.path.join(sd, rs["trace"])], stdout=subprocess.PIPE, stderr=subprocess.STDOUT, text=True)
+                    if rr.returncode != 0:
+                        break
+                    try:
+                        _, rej = validate_trace_only(scratch, rs["spec"], rs["cfg"], 300)
+                    except MachineryError:
+                        break
+                    if rej is not None:
+                        reproduced = True
+                        mm["detail"] = "[not the same wrong answer twice; re-executed session %d rejected again by the trace specification at event %d] %s" % (attempt + 1, rej, mm["detail"])
+                        break
         violations.append((sig, cnt, mm["detail"], path, reproduced))
     rc = 0
     for l in known_lines:
@@ -473,7 +491,8 @@ class Ctx:
             ctx = ctx[-400:] + [json.dumps({"session": session})]
             res.mismatches.append((family, {"sig": "trace:%s:%s" % (family, ev.get("op")),
                                             "detail": "trace event %d (%s) rejected by %s: %s" % (rejected, ev.get("op"), trace_spec, json.dumps(ev)[:600]),
-                                            "case": {"session": session}, "ctx": ctx}, 1))
+                                            "case": {"session": session}, "ctx": ctx,
+                                            "respec": ({"cmd": "rerunxml", "spec": trace_spec, "cfg": trace_cfg, "trace": "trace_xml.ndjson"} if family == "xml" else None)}, 1))
             # drop the whole session and validate the rest
             end = idx + 1
             while end < len(lines) and json.loads(lines[end]).get("op") != "reset":
